@@ -46,18 +46,26 @@ fn programs(prop: Prop, tier: Tier) -> Vec<Program> {
             for s in [
                 "recv.d@0+recv.d@0",
                 "recv.d@0+job.d@1",
-                "read.t@0+accept.c@1",
+                "read.t@0+accept.d@1",
                 "job.t@0+file.d@1",
-                "recv.c@0+recv.t@1",
                 "accept.d@0+accept.d@0",
                 "job.d@0+job.c@1",
                 "file.t@0+read.d@1",
                 "recv.t@0+recv.t@0",
+                // io_uring only: multishot receive with the buffer pool, zero-copy send
+                "multi.d@0",
+                "multi.c@0",
+                "zc.d@0",
+                "zc.c@0",
+                "multi.d@0+job.d@1",
+                "zc.d@0+recv.d@1",
             ] {
                 v.push(p(s, 1));
             }
             if tier == Tier::Thorough {
                 for s in [
+                    "read.t@0+accept.c@1",
+                    "recv.c@0+recv.t@1",
                     "job.c@0+recv.c@1",
                     "read.d@0+read.d@0",
                     "accept.t@0+job.t@1",
@@ -73,30 +81,37 @@ fn programs(prop: Prop, tier: Tier) -> Vec<Program> {
             }
         }
         Prop::C02 => {
-            for s in [
+            // (program, how often an In port may be made ready in the quick tier)
+            for (s, mr) in [
                 // which result went where: three of a kind on distinct descriptors
-                "recv.d@0+recv.d@1+recv.d@2",
+                ("recv.d@0+recv.d@1+recv.d@2", 1),
                 // one descriptor, several readers (per-descriptor FIFO on the polling driver)
-                "recv.d@0+recv.d@0+recv.d@0",
+                ("recv.d@0+recv.d@0+recv.d@0", 2),
                 // two readers plus a writer on one descriptor
-                "recv.d@0+recv.d@0+send.d@0",
-                "recv.d@0+read.d@1+accept.d@2",
-                "job.d@0+recv.d@1+file.d@2",
-                "job.d@0+job.d@1+job.d@2",
-                "accept.d@0+accept.d@0+recv.d@1",
-                "read.t@0+job.t@1+recv.t@2",
-                "file.d@0+file.d@0+read.d@1",
-                "send.d@0+recv.t@1+job.d@2",
+                ("recv.d@0+recv.d@0+send.d@0", 2),
+                ("recv.d@0+read.d@1+accept.d@2", 1),
+                ("job.d@0+recv.d@1+file.d@2", 2),
+                ("job.d@0+job.d@1+job.d@2", 1),
+                ("accept.d@0+accept.d@0+recv.d@1", 1),
+                ("read.t@0+job.t@1+recv.t@2", 1),
+                ("file.d@0+file.d@0+read.d@1", 2),
+                // io_uring only: multishot receive, zero-copy send
+                ("multi.d@0+recv.d@1", 2),
+                ("zc.d@0+recv.d@1", 1),
             ] {
-                v.push(p(s, 2));
+                v.push(p(s, if tier == Tier::Thorough { 2 } else { mr }));
             }
             if tier == Tier::Thorough {
                 for s in [
+                    "multi.d@0+recv.d@1+job.d@2",
+                    "zc.d@0+recv.d@1+recv.d@2",
+                    "send.d@0+recv.t@1+job.d@2",
                     "read.d@0+read.d@0+read.d@0",
                     "recv.t@0+recv.t@0+recv.d@1",
                     "accept.t@0+accept.d@0+accept.d@0",
                     "job.t@0+file.t@1+send.t@2",
                     "recv.c@0+read.c@1+job.c@2",
+                    "multi.c@0+zc.d@1+recv.d@2",
                 ] {
                     v.push(p(s, 2));
                 }
@@ -122,15 +137,19 @@ fn configs() -> Vec<Config> {
     v
 }
 
-fn depth_of(prop: Prop, tier: Tier) -> usize {
+/// depth bound; `nops` = number of operations of the program (a single operation is explored
+/// deeper: its sequences are few)
+fn depth_of(prop: Prop, tier: Tier, nops: usize) -> usize {
     std::env::var("E_C01_DEPTH")
         .ok()
         .and_then(|s| s.parse().ok())
-        .unwrap_or(match (prop, tier) {
-            (Prop::C01, Tier::Quick) => 6,
-            (Prop::C01, Tier::Thorough) => 7,
-            (Prop::C02, Tier::Quick) => 6,
-            (Prop::C02, Tier::Thorough) => 8,
+        .unwrap_or(match (prop, tier, nops) {
+            (Prop::C01, Tier::Quick, 1) => 7,
+            (Prop::C01, Tier::Quick, _) => 6,
+            (Prop::C01, Tier::Thorough, 1) => 9,
+            (Prop::C01, Tier::Thorough, _) => 7,
+            (Prop::C02, Tier::Quick, _) => 6,
+            (Prop::C02, Tier::Thorough, _) => 7,
         })
 }
 
@@ -191,10 +210,11 @@ fn run_choices(
     depth: usize,
     cur: Option<&Current>,
 ) -> Exec {
-    let mut w = World::new(prop, cfg, prog, env);
+    let mut slot: Option<World> = None;
     let mut points = Vec::new();
     let mut diverged = false;
     let r = vcore::catch(|| {
+        let w = slot.insert(World::new(prop, cfg, prog, env));
         loop {
             if w.steps.len() >= depth {
                 break;
@@ -223,14 +243,34 @@ fn run_choices(
         }
         w.finish();
     });
-    finish_exec(w, points, diverged, r.err())
+    match slot {
+        Some(w) => finish_exec(w, points, diverged, r.err()),
+        None => setup_failed(r.err()),
+    }
+}
+
+fn setup_failed(panic: Option<String>) -> Exec {
+    Exec {
+        steps: Vec::new(),
+        points: Vec::new(),
+        diverged: false,
+        fails: vec![Fail {
+            oracle: "machinery",
+            class: "setup-failed".into(),
+            msg: panic.unwrap_or_default(),
+        }],
+        obs: Vec::new(),
+        reached: Vec::new(),
+        sig: "setup-failed".into(),
+    }
 }
 
 /// Runs exactly `steps`.
 fn run_steps(prop: Prop, cfg: Config, prog: &Program, env: &Env, steps: &[Step]) -> Exec {
-    let mut w = World::new(prop, cfg, prog, env);
+    let mut slot: Option<World> = None;
     let mut diverged = false;
     let r = vcore::catch(|| {
+        let w = slot.insert(World::new(prop, cfg, prog, env));
         for s in steps {
             if !w.enabled().contains(s) {
                 diverged = true;
@@ -243,7 +283,10 @@ fn run_steps(prop: Prop, cfg: Config, prog: &Program, env: &Env, steps: &[Step])
         }
         w.finish();
     });
-    finish_exec(w, Vec::new(), diverged, r.err())
+    match slot {
+        Some(w) => finish_exec(w, Vec::new(), diverged, r.err()),
+        None => setup_failed(r.err()),
+    }
 }
 
 // ------------------------------------------------------------------------------------------
@@ -376,6 +419,10 @@ fn record(agg: &mut Agg, prop: Prop, cfg: Config, prog: &Program, env: &Env, e: 
         }
         if !relevant(prop, f.oracle) {
             agg.count("failures_of_the_other_propertys_oracles_seen", 1);
+            agg.count(&format!("other-oracle:{}:{}:{}", cfg.dname(), f.oracle, f.class), 1);
+            if agg.samples.len() < 3 {
+                agg.samples.push(json!({"other_oracle": f.class, "msg": f.msg, "config": cfg.name(), "program": prog.name(), "steps": e.steps.iter().map(|s| s.name()).collect::<Vec<_>>(), "obs": e.obs}));
+            }
             continue;
         }
         let key = key_of(prop, &cfg, f);
@@ -586,12 +633,24 @@ fn with_env<R>(file: &Path, f: impl FnOnce(&Env) -> R) -> R {
 // worker
 // ------------------------------------------------------------------------------------------
 
-fn worker_main(prop: Prop, tier: Tier, k: usize, dir: &Path) -> ! {
+fn worker_main(prop: Prop, tier: Tier, k: usize, dir: &Path, generation: usize) -> ! {
+    let out = dir.join(format!("out-{k}-{generation}.json"));
+    let flush = |agg: &Agg| {
+        let tmp = out.with_extension("tmp");
+        let ok = std::fs::write(&tmp, vcore::serde_json::to_vec(&agg_to_json(agg)).unwrap()).is_ok() && std::fs::rename(&tmp, &out).is_ok();
+        if !ok {
+            vcore::machinery_error(&format!("cannot write {out:?}"));
+        }
+    };
     let file = dir.join("data");
-    let depth = depth_of(prop, tier);
     let progs = programs(prop, tier);
     let cfgs = configs();
-    let wall_cap = Duration::from_secs(tier.pick(36, 800));
+    let wall_cap = Duration::from_secs(
+        std::env::var("E_C01_WALL")
+            .ok()
+            .and_then(|s| s.parse().ok())
+            .unwrap_or(tier.pick(30, 800)),
+    );
     let start = Instant::now();
     let shared = Shared::open(&dir.join("work"), 4096, false);
     let cur = Current(Shared::open(&dir.join(format!("cur-{k}")), 16384, false));
@@ -613,6 +672,7 @@ fn worker_main(prop: Prop, tier: Tier, k: usize, dir: &Path) -> ! {
                     agg.capped = true;
                     break;
                 }
+                let depth = depth_of(prop, tier, prog.ops.len());
                 let e = run_choices(prop, item.cfg, prog, env, &prefix, depth, Some(&cur));
                 if e.diverged {
                     agg.count("replay_divergences", 1);
@@ -623,7 +683,11 @@ fn worker_main(prop: Prop, tier: Tier, k: usize, dir: &Path) -> ! {
                 if agg.outcomes.len() < 20_000 {
                     agg.outcomes.insert(e.sig.clone());
                 }
+                let known = agg.found.len();
                 record(&mut agg, prop, item.cfg, prog, env, &e);
+                if agg.found.len() != known {
+                    flush(&agg);
+                }
                 if first {
                     first = false;
                     // determinism guard: the same steps give the same observations
@@ -643,15 +707,15 @@ fn worker_main(prop: Prop, tier: Tier, k: usize, dir: &Path) -> ! {
                 }
             }
             *agg.per_cfg.entry(item.cfg.name()).or_insert(0) += n;
+            // partial results survive a later crash of this worker
+            flush(&agg);
             if agg.capped {
                 break;
             }
         }
     });
     cur.set(&json!(null));
-    let out = dir.join(format!("out-{k}.json"));
-    std::fs::write(&out, vcore::serde_json::to_vec(&agg_to_json(&agg)).unwrap())
-        .unwrap_or_else(|e| vcore::machinery_error(&format!("cannot write {out:?}: {e}")));
+    flush(&agg);
     std::process::exit(0)
 }
 
@@ -744,7 +808,8 @@ fn main() {
     vcore::quiet_panics();
     if args.rest.first().map(|s| s.as_str()) == Some("--worker") {
         let k: usize = args.rest[1].parse().unwrap();
-        worker_main(prop, tier, k, Path::new(&args.rest[2]));
+        let generation: usize = args.rest.get(3).and_then(|s| s.parse().ok()).unwrap_or(0);
+        worker_main(prop, tier, k, Path::new(&args.rest[2]), generation);
     }
     let tmp = make_tmp();
     let file = tmp.join("data");
@@ -753,7 +818,6 @@ fn main() {
     }
 
     let report = Report::new(prop.name(), tier);
-    let depth = depth_of(prop, tier);
     let progs = programs(prop, tier);
     let cfgs = configs();
     match prop {
@@ -761,12 +825,16 @@ fn main() {
             report.must_reach("inflight_op_freed_after_ring_closed");
             report.must_reach("pool_job_running_at_teardown");
             report.must_reach("cancelled_op_finalized");
+            report.must_reach("multishot_item_delivered");
+            report.must_reach("zerocopy_buffer_returned_after_notification");
         }
         Prop::C02 => {
             report.must_reach("sq_overflow_completion_during_submit");
             report.must_reach("burst_two_completions_in_one_harvest");
             report.must_reach("two_readers_one_descriptor_delivered");
             report.must_reach("completed_at_submit");
+            report.must_reach("multishot_item_delivered");
+            report.must_reach("zerocopy_buffer_returned_after_notification");
         }
     }
     let nitems = with_env(&file, |env| make_items(prop, &cfgs, &progs, env).len());
@@ -781,31 +849,58 @@ fn main() {
     }
     let exe = std::env::current_exe()
         .unwrap_or_else(|e| vcore::machinery_error(&format!("current_exe: {e}")));
-    let mut children = Vec::new();
-    for k in 0..nworkers {
-        let c = std::process::Command::new(&exe)
+    let spawn = |k: usize, generation: usize| {
+        std::process::Command::new(&exe)
             .arg(prop.name())
             .arg(tier.name())
             .arg("--worker")
             .arg(k.to_string())
             .arg(&tmp)
+            .arg(generation.to_string())
             .spawn()
-            .unwrap_or_else(|e| vcore::machinery_error(&format!("cannot start worker: {e}")));
-        children.push(c);
+            .unwrap_or_else(|e| vcore::machinery_error(&format!("cannot start worker: {e}")))
+    };
+    // (slot, generation, child); a worker that dies is replaced (the work counter goes on) so
+    // that one crashing execution does not hide the rest of the space
+    let mut running: Vec<(usize, usize, std::process::Child)> = (0..nworkers).map(|k| (k, 0, spawn(k, 0))).collect();
+    let mut finished: Vec<(usize, usize)> = Vec::new();
+    let mut crashed = Vec::new();
+    let mut respawns = 0usize;
+    while !running.is_empty() {
+        let mut i = 0;
+        let mut progressed = false;
+        while i < running.len() {
+            let st = running[i]
+                .2
+                .try_wait()
+                .unwrap_or_else(|e| vcore::machinery_error(&format!("wait for worker: {e}")));
+            match st {
+                None => i += 1,
+                Some(st) => {
+                    progressed = true;
+                    let (k, generation, _) = running.swap_remove(i);
+                    finished.push((k, generation));
+                    if !st.success() {
+                        use std::os::unix::process::ExitStatusExt;
+                        crashed.push((k, st.signal(), st.code(), currents[k].get()));
+                        let left = (shared.counter().load(Ordering::SeqCst) as usize) < nitems;
+                        if left && respawns < 48 {
+                            respawns += 1;
+                            running.push((k, generation + 1, spawn(k, generation + 1)));
+                        }
+                    }
+                }
+            }
+        }
+        if !progressed {
+            std::thread::sleep(Duration::from_millis(5));
+        }
     }
     let mut agg = Agg::default();
-    let mut crashed = Vec::new();
-    for (k, mut c) in children.into_iter().enumerate() {
-        let st = c
-            .wait()
-            .unwrap_or_else(|e| vcore::machinery_error(&format!("wait for worker: {e}")));
-        let out = tmp.join(format!("out-{k}.json"));
-        match std::fs::read(&out).ok().and_then(|b| vcore::serde_json::from_slice::<Value>(&b).ok()) {
-            Some(v) if st.success() => merge_json(&mut agg, &v),
-            _ => {
-                use std::os::unix::process::ExitStatusExt;
-                crashed.push((k, st.signal(), st.code(), currents[k].get()));
-            }
+    for (k, generation) in &finished {
+        let out = tmp.join(format!("out-{k}-{generation}.json"));
+        if let Some(v) = std::fs::read(&out).ok().and_then(|b| vcore::serde_json::from_slice::<Value>(&b).ok()) {
+            merge_json(&mut agg, &v);
         }
     }
     let _ = std::fs::remove_dir_all(&tmp);
@@ -839,8 +934,9 @@ fn main() {
             Some(v) if !v.is_null() => (v["driver"].as_str().unwrap_or("?").to_string(), v.clone()),
             _ => ("?".into(), json!(null)),
         };
-        if replay.is_null() {
-            eprintln!("MACHINERY-ERROR: worker {k} ended abnormally (signal {sig:?}, code {code:?}) outside an execution");
+        if replay.is_null() || sig.is_none() {
+            // no signal: the harness itself gave up (panic outside an execution, I/O error)
+            eprintln!("MACHINERY-ERROR: worker {k} ended abnormally (signal {sig:?}, code {code:?}); last execution: {replay}");
             std::process::exit(2);
         }
         report.violation(Violation {
@@ -855,7 +951,8 @@ fn main() {
     report.extra(
         "bounds",
         json!({
-            "depth": depth,
+            "depth": depth_of(prop, tier, 2),
+            "depth_single_operation_programs": depth_of(prop, tier, 1),
             "configurations": cfgs.iter().map(|c| c.name()).collect::<Vec<_>>(),
             "programs": progs.iter().map(|p| p.name()).collect::<Vec<_>>(),
             "work_items": nitems,
